@@ -151,6 +151,32 @@ func auxRaceC13() int {
 		cancel()
 		n++
 	}
+	// a context type of the embedder's own (its own Done channel, no AfterFunc method): the standard library can
+	// only watch such a context with a goroutine. 200 Runs that end by HALT while the context stays live must
+	// not leave a watcher each behind.
+	{
+		fc := &foreignCtx{done: make(chan struct{})}
+		for rep := 0; rep < 200; rep++ {
+			mem := obs.NewMem(bg)
+			mem.Poke(0x0100, 0x00, 0x00, 0x76)
+			pm := &plainMem{m: mem}
+			cpu := &z80.CPU{Memory: pm, IO: &obs.IO{X: 1, Fixed: true}}
+			cpu.PC, cpu.SP = 0x0100, 0xF000
+			if err := cpu.Run(fc); err != nil {
+				bad++
+			}
+			n++
+		}
+		deadline := time.Now().Add(5 * time.Second)
+		for runtime.NumGoroutine() > before && time.Now().Before(deadline) {
+			time.Sleep(5 * time.Millisecond)
+		}
+		if g := runtime.NumGoroutine(); g > before {
+			fmt.Printf("auxrace C13: after 200 Run calls that ended by HALT under a live context of the embedder's own type, %d goroutines exist (before: %d): Run leaves a watcher behind for as long as that context lives\n", g, before)
+			return 4
+		}
+		close(fc.done)
+	}
 	// goroutines must drain
 	deadline := time.Now().Add(5 * time.Second)
 	for runtime.NumGoroutine() > before && time.Now().Before(deadline) {
@@ -196,3 +222,18 @@ func (p *plainMem) tick() {
 
 func (p *plainMem) Get(a uint16) uint8    { p.tick(); return p.m.Peek(a) }
 func (p *plainMem) Set(a uint16, v uint8) { p.tick(); p.m.Poke(a, v) }
+
+// foreignCtx is a context.Context implemented by the embedder: nothing but the four methods.
+type foreignCtx struct{ done chan struct{} }
+
+func (f *foreignCtx) Deadline() (time.Time, bool)       { return time.Time{}, false }
+func (f *foreignCtx) Done() <-chan struct{}             { return f.done }
+func (f *foreignCtx) Value(key interface{}) interface{} { return nil }
+func (f *foreignCtx) Err() error {
+	select {
+	case <-f.done:
+		return context.Canceled
+	default:
+		return nil
+	}
+}
